@@ -65,7 +65,7 @@ pub fn run(ctx: &Ctx) -> i32 {
          the verif-hooks sweep counters must stay below 3*(4n+16) / (4n+16) / (n+2). distinct_nontrivial = distinct programs with >= 1 loop or call whose snapshots were compared",
     );
     rep.assume("reproducibility is compared only for programs in which no function has two returns (the choice of the exit among several returns follows hash order; that is C10/C11 material)");
-    let per_shard = ctx.tier.pick(30, 2000);
+    let per_shard = ctx.tier.pick(80, 2000);
     let acc = run_sharded(ctx, |shard| {
         let mut acc = Acc::new();
         for k in 0..per_shard {
@@ -78,15 +78,23 @@ pub fn run(ctx: &Ctx) -> i32 {
                 4 | 5 => (Profile::wild_static(), None),
                 _ => (Profile::wild(), None),
             };
-            let c = make_case(&mut rng, &prof, inject, Some(&Style::plain()));
+            let mut c = make_case(&mut rng, &prof, inject, Some(&Style::plain()));
+            if k % 4 == 1 {
+                // CSR-heavy trap handlers and shared tails instead of a generated program
+                let s = if rng.chance(0.7) { crate::shapes::trap_handler_family(&mut rng) } else { crate::shapes::shared_tail_family(&mut rng) };
+                c.g.prog = s.prog;
+                c.g.funcs.clear();
+                c.printed = crate::print::print(&c.g.prog, &Style::plain(), &mut Rng::new(1));
+            }
+            let special = k % 4 == 1;
             acc.evaluations += 1;
-            let shape_name = match shape {
+            let shape_name = if special { "trap-handler-or-shared-tails" } else { match shape {
                 0 => "jump-into-function",
                 1 => "fall-through-into-function",
                 2 | 3 => "conforming",
                 4 | 5 => "wild-branches-into-functions",
                 _ => "wild",
-            };
+            } };
             let text = c.printed.text.clone();
             let replay = json!({"program": text});
             // ---- parse once
@@ -140,7 +148,7 @@ pub fn run(ctx: &Ctx) -> i32 {
             let s0 = gv.snapshot();
             let d0 = diag_keys(&cfg, &reader);
             // ---- reproducibility
-            let multi_ret = shape < 2 || c.g.prog.instructions().iter().filter(|i| i.is_ret()).count() > c.g.funcs.len();
+            let multi_ret = shape < 2 || special || c.g.prog.instructions().iter().filter(|i| i.is_ret()).count() > c.g.funcs.len();
             if !multi_ret {
                 if let Some((cfg2, _)) = build(&mut acc) {
                     let s1 = GraphView::of(&cfg2).snapshot();
